@@ -227,7 +227,8 @@ def run(chk):
         "inside a loop whose exit re-reads shared state, L5 every store to a field of a wait predicate is followed "
         "by a broadcast on that condvar before the unlock (or is on the waiter's own side), L6 every wait "
         "predicate contains the shutdown/failure flag, L7 ticket discipline; L8/L9 the block processor's use of "
-        "set_worker_ptr / dequeue+get_status.")
+        "set_worker_ptr / dequeue+get_status; L11 a node that becomes the tail of a queue (threaded and serial pool) has "
+        "a NULL link: fresh from calloc, or cleared on every path since it left its last list.")
     chk.assumptions = ["pthread primitives behave as specified by POSIX",
                        "sortedness of the done list, exactly-once as a counting argument and fairness are not decided"]
     st = prog.struct(POOL)
